@@ -17,8 +17,11 @@
    Function calls: the argument slot the cursor belongs to (with the recovery of a trailing comma) and the
    parameter type it is completed against.
 
-   Not modelled (the result is [vskip] and the position is not compared): type declarations and expressions the
-   serialiser files under "other" (splat, relative traversals, syntax errors).
+   Type declarations (TypeDeclaration.CompletionAtPos): type names by typed prefix, inside list()/set()/map(),
+   object({...}) items and tuple([...]) elements, with the recovery of a half-typed item.
+
+   Not modelled (the result is [vskip] and the position is not compared): expressions the serialiser files under
+   "other" (splat, relative traversals, syntax errors).
 
    Positions are compared by byte offsets (and lines where the code looks at lines); columns are the
    business of the scanner-table oracle of C02. *)
@@ -221,6 +224,160 @@ Fixpoint lt_snippet (fuel : nat) (t : ty) (ph : Z) (lvl : nat) : string * Z :=
       end
   end.
 
+(* ---------------- type declarations (decoder/expr_type_declaration_completion.go) ---------------- *)
+Definition paren_table := list (range * (range * range)).     (* call -> (opening parenthesis, closing parenthesis) *)
+Fixpoint lookup_parens (l : paren_table) (r : range) : option (range * range) :=
+  match l with [] => None | (k, v) :: rest => if range_eqb k r then Some v else lookup_parens rest r end.
+
+Definition td_item (k : Z) (label : option string) (newt snip : string) (trig : bool) (sb eb : Z) : vitem :=
+  VC k label (Some newt) (Some snip) (Some trig) sb eb.
+
+(* allTypeDeclarationsAsCandidates: the type names the typed text is a prefix of, primitive ones first *)
+Definition all_type_decls (prefix : string) (sb eb : Z) : list vitem :=
+  let on (name : string) (i : vitem) := if bytes_prefix prefix name then [i] else [] in
+  on "bool" (td_item kBool (Some "bool") "bool" "bool" false sb eb) ++
+  on "number" (td_item kNumber (Some "number") "number" "number" false sb eb) ++
+  on "string" (td_item kString (Some "string") "string" "string" false sb eb) ++
+  on "list" (td_item kList None "list()" "list(${0})" true sb eb) ++
+  on "set" (td_item kSet None "set()" "set(${0})" true sb eb) ++
+  on "tuple" (td_item kTuple None "tuple([])" "tuple([ ${0} ])" true sb eb) ++
+  on "map" (td_item kMap None "map()" "map(${0})" true sb eb) ++
+  on "object" (td_item kObject None ("object({" ++ nl ++ nl ++ "})") ("object({" ++ nl ++ "  ${1:name} = ${2}" ++ nl ++ "})") false sb eb).
+
+Definition td_attr_item (sb eb : Z) : vitem := td_item kAttribute (Some "name = type") "name = " "${1:name} = " false sb eb.
+
+Section TypeDecl.
+  Variable file : bytes.
+  Variable opens : range_table.
+  Variable empties : list range.
+  Variable cparens : paren_table.
+  Variable p : pos.
+  Variable rec_td : cexpr -> vres.
+
+  Definition tP : Z := pb p.
+  Definition td_norm (e : sexpr) : cexpr :=
+    match se_node e with NLit _ => if existsb (range_eqb (se_rng e)) empties then CEmpty else CExpr e | _ => CExpr e end.
+  Definition td_slice (a b : Z) : bytes :=
+    let len := Z.of_nat (length file) in
+    let clamp z := if Z.ltb z 0 then 0%Z else if Z.ltb len z then len else z in
+    let s := clamp a in let e := clamp b in let e := if Z.ltb e s then s else e in
+    firstn (Z.to_nat (e - s)) (skipn (Z.to_nat s) file).
+
+  Inductive td_scan := DReturn (r : vres) | DFall (recovery : Z) (last_line next_line : option Z).
+
+  Fixpoint td_items (items : list sitem) (recovery : Z) (last_line : option Z) : td_scan :=
+    match items with
+    | [] => DFall recovery last_line None
+    | SItem krng k v :: r =>
+        if Z.leb (re krng) tP && Z.ltb tP (rs (se_rng v)) then DReturn vnil
+        else if Z.ltb tP (rs krng) then DFall recovery last_line (Some (p_line (r_start krng)))
+        else if contains_pos krng p then DReturn vnil
+        else if at_or_end (se_rng v) p then DReturn (rec_td (td_norm v))
+        else td_items r (re (se_rng v)) (Some (p_line (r_end (se_rng v))))
+    end.
+
+  Definition object_td (o c : range) (args : list sexpr) : vres :=
+    match args with
+    | [] => vret [td_item kObject None ("{" ++ nl ++ nl ++ "}") ("{" ++ nl ++ "  ${1:name} = ${2}" ++ nl ++ "}") false (re o) (rs c)]
+    | [a] =>
+        match se_node a with
+        | NObject items =>
+            if negb (contains_pos (se_rng a) p) then vnil
+            else
+              let open_end := match lookup_range opens (se_rng a) with Some ob => re ob | None => 0%Z end in
+              let early : option vres :=
+                match items with
+                | [] =>
+                    match trim_space no_extra (td_slice open_end tP) with
+                    | [] => Some (vret [td_attr_item tP tP])
+                    | rem => if last_is rem "=" then Some (vret (all_type_decls "" tP tP)) else None
+                    end
+                | _ => None
+                end in
+              match early with
+              | Some r => r
+              | None =>
+                  match td_items items open_end None with
+                  | DReturn r => r
+                  | DFall recovery last_line next_line =>
+                      let recovered := recover_left file tP (fun off b => is_item_term b && Z.ltb recovery off) in
+                      match trim_right_set is_blank_tab recovered with
+                      | [] => vnil
+                      | [b] =>
+                          if is_item_term b then
+                            if match next_line with Some l => Z.eqb l (p_line p) | None => false end then vnil
+                            else if match last_line with Some l => Z.eqb l (p_line p) && negb (b_eq b ",") | None => false end then vnil
+                            else vret [td_attr_item tP tP]
+                          else if b_eq b "=" then vret (all_type_decls "" tP tP) else vnil
+                      | trimmed => if last_is trimmed "=" then vret (all_type_decls "" tP tP) else vnil
+                      end
+                  end
+              end
+        | _ => vnil
+        end
+    | _ => vnil
+    end.
+
+  Fixpoint td_elem_at (elems : list sexpr) : option sexpr :=
+    match elems with [] => None | x :: r => if at_or_end (se_rng x) p then Some x else td_elem_at r end.
+
+  Definition tuple_td (o c : range) (args : list sexpr) : vres :=
+    match args with
+    | [] => vret [td_item kTuple None "[]" "[ ${0} ]" false (re o) (rs c)]
+    | [a] =>
+        match se_node a with
+        | NTuple elems =>
+            match td_elem_at elems with
+            | Some x => rec_td (td_norm x)
+            | None =>
+                let open_end := match lookup_range opens (se_rng a) with Some ob => re ob | None => 0%Z end in
+                let close := (re (se_rng a) - 1)%Z in
+                if (Z.leb open_end tP && Z.ltb tP close) || Z.eqb close tP then vret (all_type_decls "" tP tP) else vnil
+            end
+        | _ => vnil
+        end
+    | _ => vnil
+    end.
+
+  Definition type_decl_cands (e : cexpr) : vres :=
+    match e with
+    | CEmpty => vret (all_type_decls "" tP tP)
+    | CExpr x =>
+        match se_node x with
+        | NTrav root [_] _ =>
+            let plen := (tP - rs (se_rng x))%Z in
+            if Z.ltb plen 0 || Z.ltb (Z.of_nat (String.length root)) plen then vnil
+            else vret (all_type_decls (String.substring 0 (Z.to_nat plen) root) (rs (se_rng x)) (re (se_rng x)))
+        | NCall name nrng args =>
+            if contains_pos nrng p || Z.eqb (re nrng) tP then
+              vret (all_type_decls (String.substring 0 (Z.to_nat (tP - rs nrng)) name) (rs (se_rng x)) (re (se_rng x)))
+            else
+              match lookup_parens cparens (se_rng x) with
+              | None => vnil
+              | Some (o, c) =>
+                  if Z.leb (re o) tP && Z.ltb tP (re c) then
+                    if is_elem_type_name name then
+                      match args with
+                      | [] => vret (all_type_decls "" (re o) (rs c))
+                      | [a] => if contains_pos (se_rng a) p then rec_td (td_norm a) else vnil
+                      | _ => vnil
+                      end
+                    else if String.eqb name "object" then object_td o c args
+                    else if String.eqb name "tuple" then tuple_td o c args
+                    else vnil
+                  else vnil
+              end
+        | _ => vnil
+        end
+    end.
+End TypeDecl.
+
+Fixpoint type_cands (file : bytes) (opens : range_table) (empties : list range) (cparens : paren_table) (p : pos) (fuel : nat) (e : cexpr) : vres :=
+  match fuel with
+  | O => None
+  | S n => type_decl_cands file opens empties cparens p (type_cands file opens empties cparens p n) e
+  end.
+
 (* the boolean a serialised cty value stands for *)
 Definition bool_of_val (v : sexp) : option bool :=
   match v with SList [SAtom a; b] => if String.eqb a "bool" then as_bool b else None | _ => None end.
@@ -235,6 +392,7 @@ Section Descent.
   Variable parens : range_table.         (* call expression -> from its opening to its closing parenthesis *)
   Variable p : pos.
   Variable rec : constraint -> cexpr -> vres.
+  Variable rec_td : cexpr -> vres.       (* type declarations *)
 
   Definition P : Z := pb p.
   Definition at_cursor (k : Z) (label newt snip : option string) (trig : option bool) : vitem := VC k label newt snip trig P P.
@@ -824,7 +982,7 @@ Section Descent.
     | CKeyword kw _ => keyword_cands kw e
     | CRef _ _ _ (Some _) => vnil          (* a reference that declares what it names: no candidates *)
     | CRef _ _ _ None => ref_items e
-    | CTypeDecl => vskip
+    | CTypeDecl => rec_td e
     | CList elem _ _ => list_cands kList c elem e
     | CSet elem _ _ => list_cands kSet c elem e
     | CTuple cs => tuple_cands c cs e
@@ -835,10 +993,11 @@ Section Descent.
 End Descent.
 
 Fixpoint value_cands (prefill : bool) (file : bytes) (opens : range_table) (empties : list range) (vals : list (range * sexp))
-         (funcs : fsigs) (parens : range_table) (p : pos) (fuel : nat) (c : constraint) (e : cexpr) : vres :=
+         (funcs : fsigs) (parens : range_table) (cparens : paren_table) (p : pos) (fuel : nat) (c : constraint) (e : cexpr) : vres :=
   match fuel with
   | O => None
-  | S n => step_cands prefill file opens empties vals funcs parens p (value_cands prefill file opens empties vals funcs parens p n) c e
+  | S n => step_cands prefill file opens empties vals funcs parens p (value_cands prefill file opens empties vals funcs parens cparens p n)
+                      (type_cands file opens empties cparens p n) c e
   end.
 
 (* ---------------- the whole file: body level (Model/Completion.v) + values ---------------- *)
@@ -925,14 +1084,15 @@ Inductive vc_outcome := VCNotValue | VCCompared | VCUnmodelled | VCNotCompared |
 Definition run_value_cands (kind : string) (args : list sexp) : option sexp :=
   if String.eqb kind "valuecands" || String.eqb kind "valuecandsstat" then
     match args with
-    | [pf; mx; SStr file; toks; SList dec; b; bs; SList es; op; em; SList vs; SList fs; prn; SList pairs] =>
+    | [pf; mx; SStr file; toks; SList dec; b; bs; SList es; op; em; SList vs; SList fs; prn; SList cps; SList pairs] =>
         let tokens := match toks with SList ts => map_opt token_of_sexp ts | _ => None end in
         let lex_failed := match toks with SAtom _ => true | _ => false end in
         match as_bool pf, as_Z mx, map_opt decoded_of_sexp dec, Ast.body_of_sexp b, Schema.body_of_sexp bs,
               map_opt sexpr_entry_of_sexp es, range_table_of_sexp op, ranges_of_sexp em,
               map_opt (fun x => match x with SList [r; v] => option_map (fun r' => (r', v)) (range_of_sexp r) | _ => None end) vs,
-              map_opt fsig_of_sexp fs, range_table_of_sexp prn with
-        | Some pf, Some mx, Some dec, Some b, Some bs, Some es, Some op, Some em, Some vs, Some fs, Some prn =>
+              map_opt fsig_of_sexp fs, range_table_of_sexp prn,
+              map_opt (fun x => match x with SList [a; o; c] => match range_of_sexp a, range_of_sexp o, range_of_sexp c with Some a, Some o, Some c => Some (a, (o, c)) | _, _, _ => None end | _ => None end) cps with
+        | Some pf, Some mx, Some dec, Some b, Some bs, Some es, Some op, Some em, Some vs, Some fs, Some prn, Some cps =>
             match tokens, lex_failed with
             | None, false => None
             | _, _ =>
@@ -953,7 +1113,7 @@ Definition run_value_cands (kind : string) (args : list sexp) : option sexp :=
                                     match map_opt ocandv_of_sexp ol with
                                     | Some ol' =>
                                         let ce := if existsb (range_eqb (se_rng e)) em then (match se_node e with NLit _ => CEmpty | _ => CExpr e end) else CExpr e in
-                                        match value_cands pf fb op em vs fs prn pp 40 (as_cons s) ce with
+                                        match value_cands pf fb op em vs fs prn cps pp 40 (as_cons s) ce with
                                         | Some (Some items) =>
                                             if items_match items ol' && sexp_eqb complete (sB true) then VCCompared
                                             else VCBad (SList [p; SList (map sexp_of_vitem items)])
@@ -983,7 +1143,7 @@ Definition run_value_cands (kind : string) (args : list sexp) : option sexp :=
                 else
                 match bad with [] => Some (SList [SAtom "allok"]) | _ => Some (SList (SAtom "mismatch" :: bad)) end
             end
-        | _, _, _, _, _, _, _, _, _, _, _ => None
+        | _, _, _, _, _, _, _, _, _, _, _, _ => None
         end
     | _ => None
     end
